@@ -166,6 +166,8 @@ Inductive thunk :=
 | TMerge (a b : thunk)                    (* a & b *)
 | TEq (a b : thunk)                       (* a == b *)
 | TRecLit (fs : list (string * thunk))    (* { k = t, ... } *)
+| TSelf                                   (* the enclosing record, in a field definition: a recursive
+                                             reference to a sibling [a] is [TObs (OAccess a) TSelf] *)
 with lval :=
 | VNum (z : Z) | VStr (s : string) | VBool (b : bool)
 | VArr (es : list thunk) (pend : list pc)
@@ -176,6 +178,42 @@ with fn :=
 | FWrap (pol : bool) (d c : ctr) (f : fn). (* the function built by $func *)
 
 Definition field := (string * (thunk * list pc))%type.
+
+(** The recursive environment (fixpoint.rs, [rec_env]).  A field definition sees the record it
+    belongs to *as it is delivered*: every sibling with its pending contracts.  [close_rec] binds
+    [TSelf] in every field definition to the record value itself (whose fields keep their pending
+    contracts, and stay open: they are bound again when they are in turn extracted), which is what
+    the evaluation of a recursive record does each time the record is (re)built - after a
+    lazily applied contract or a merge the record is reverted and evaluated again, so the binding
+    is always to the record with its current pending contracts. *)
+Fixpoint subst_self (v : lval) (t : thunk) : thunk :=
+  match t with
+  | TVal r => TVal r
+  | TCtr c t' => TCtr c (subst_self v t')
+  | TObs o t' => TObs o (subst_self v t')
+  | TApp2 f a b => TApp2 f (subst_self v a) (subst_self v b)
+  | TMerge a b => TMerge (subst_self v a) (subst_self v b)
+  | TEq a b => TEq (subst_self v a) (subst_self v b)
+  | TRecLit fs =>
+      TRecLit ((fix go (fs : list (string * thunk)) : list (string * thunk) :=
+                  match fs with
+                  | [] => []
+                  | (k, x) :: fs' => (k, subst_self v x) :: go fs'
+                  end) fs)
+  | TSelf => TVal (Ok v)
+  end.
+
+Definition close_rec (fs : list field) : list field :=
+  map (fun fl => (fst fl, (subst_self (VRec fs) (fst (snd fl)), snd (snd fl)))) fs.
+
+(** The variant refuted in Refuted.v: fields whose stored value is a literal constant are handed
+    to the recursive environment without their pending contracts. *)
+Definition is_constant (t : thunk) : bool :=
+  match t with TVal (Ok (VNum _)) | TVal (Ok (VBool _)) => true | _ => false end.
+
+Definition close_rec_constraw (fs : list field) : list field :=
+  let env := map (fun fl => if is_constant (fst (snd fl)) then (fst fl, (fst (snd fl), [])) else fl) fs in
+  map (fun fl => (fst fl, (subst_self (VRec env) (fst (snd fl)), snd (snd fl)))) fs.
 
 (** The exported (fully forced) result. *)
 Inductive tree :=
@@ -439,12 +477,13 @@ Definition apply_ctr (pol : bool) (c : ctr) (r : res lval) : res lval :=
       end
   | CDictT c' =>                                (* $dict_type: %record/map% *)
       match v with
-      | VRec fs => Ok (prim_record_map (fun _ t => TCtr (pol, c') t) fs)
+      | VRec fs => Ok (prim_record_map (fun _ t => TCtr (pol, c') t) (close_rec fs))
       | _ => Err (blame pol)
       end
   | CRecT names c' =>                           (* $record_type: split, then %record/map% *)
       match v with
-      | VRec fs =>
+      | VRec fs0 =>
+          let fs := close_rec fs0 in
           if negb (forallb (fun n => has_key n fs) names) then Err (blame pol)       (* missing *)
           else if negb (forallb (fun fl => mem_str (fst fl) names) fs) then Err (blame pol) (* extra *)
           else
@@ -455,7 +494,8 @@ Definition apply_ctr (pol : bool) (c : ctr) (r : res lval) : res lval :=
                                   end) names))
       | _ => Err (blame pol)
       end
-  | CRecC names c' open =>                      (* $record_contract: merge in contract mode *)
+  | CRecC names c' open =>                      (* $record_contract: merge in contract mode; a field
+                                                   contract keeps the label of its own annotation *)
       match v with
       | VRec fs =>
           let lft := filter (fun fl => negb (mem_str (fst fl) names)) fs in
@@ -464,7 +504,7 @@ Definition apply_ctr (pol : bool) (c : ctr) (r : res lval) : res lval :=
           else if negb (forallb (fun n => has_key n fs) names) then Err EUnmodelled
           else
             Ok (VRec (lft
-                      ++ map (fun fl => (fst fl, (fst (snd fl), snd (snd fl) ++ [(pol, c')])))
+                      ++ map (fun fl => (fst fl, (fst (snd fl), snd (snd fl) ++ [(true, c')])))
                            ctrf))
       | _ => Err (blame pol)
       end
@@ -485,8 +525,10 @@ Definition as_bool (v : lval) : res bool := match v with VBool b => Ok b | _ => 
     blame for a stdlib function (its type annotation is a contract on the argument). *)
 Definition as_arr (e : err) (v : lval) : res (list thunk * list pc) :=
   match v with VArr es p => Ok (es, p) | _ => Err e end.
+(** Every observer of a record works on the evaluated record: field definitions bound to their
+    recursive environment. *)
 Definition as_rec (e : err) (v : lval) : res (list field) :=
-  match v with VRec fs => Ok fs | _ => Err e end.
+  match v with VRec fs => Ok (close_rec fs) | _ => Err e end.
 
 Definition fun2_sem (f : fun2) (a b : res lval) : res lval :=
   match f with
@@ -692,7 +734,7 @@ Section Sem.
            compared in the order of the iterated map (the first one unless it is smaller) *)
         if negb (same_keys fs1 fs2) then Ok (VBool false)
         else
-          let ps := eq_center fs1 fs2 in
+          let ps := eq_center (close_rec fs1) (close_rec fs2) in
           (* the first pair, then the others from the last to the second *)
           match ps with
           | [] => Ok (VBool true)
@@ -883,13 +925,14 @@ Section Sem.
     | OPatField k =>
         bind (ev t) (fun v =>
         match v with
-        | VRec fs => if has_key k fs then bind (prim_record_access k fs) ev else Err ENonExhaustive
+        | VRec fs =>
+            if has_key k fs then bind (prim_record_access k (close_rec fs)) ev else Err ENonExhaustive
         | _ => Err ENonExhaustive
         end)
     | OPatRest k =>
         bind (ev t) (fun v =>
         match v with
-        | VRec fs => if has_key k fs then prim_record_remove k fs else Err ENonExhaustive
+        | VRec fs => if has_key k fs then prim_record_remove k (close_rec fs) else Err ENonExhaustive
         | _ => Err ENonExhaustive
         end)
     | OMergeR l => merge_sem t (thunk_of_lit l)
@@ -913,7 +956,7 @@ Section Sem.
     | VBool b => Ok (TrBool b)
     | VArr es p => bind (force_list (arr_elems es p)) (fun xs => Ok (TrArr xs))
     | VRec fs =>
-        bind (force_list (map fld_thunk fs)) (fun xs =>
+        bind (force_list (map fld_thunk (close_rec fs))) (fun xs =>
         Ok (TrRec (sort_fields (combine (map fst fs) xs))))
     | VFun _ => Err ENotExportable
     end.
@@ -927,6 +970,7 @@ Fixpoint eval (n : nat) : thunk -> res lval :=
     | TVal r => r
     | TCtr (pol, c) t' => apply_ctr pol c (go t')
     | TRecLit fs => Ok (VRec (map (fun '(k, x) => (k, (x, []))) fs))
+    | TSelf => Err EUnmodelled          (* a recursive reference outside a record *)
     | TObs o t' =>
         match n with 0 => Err EFuel | S m => obs_sem (eval m) (force m) o t' end
     | TApp2 f a b =>
@@ -963,12 +1007,27 @@ Fixpoint thunk_of_tree (t : ctree) : thunk :=
                          end) fs)))
   end.
 
+(** Field definitions of a recursive record literal: a literal constant, a computed value
+    ([0 + 1], not a constant for the evaluator), or a function of a sibling. *)
+Inductive fdef :=
+| DAtom (a : atom)
+| DComp (a : atom)
+| DDep (o : obs) (sibling : string).
+
+Definition thunk_of_fdef (d : fdef) : thunk :=
+  match d with
+  | DAtom a => thunk_of_atom a
+  | DComp a => TObs OId (thunk_of_atom a)
+  | DDep o j => TObs o (TObs (OAccess j) TSelf)
+  end.
+
 Inductive container :=
 | KArr (xs : list atom)
 | KArr2 (rows : list (list atom))
 | KRec (fs : list (string * atom))
 | KFun (o : obs)
-| KTree (t : ctree).
+| KTree (t : ctree)
+| KRecR (ds : list (string * fdef)).
 
 Definition thunk_of_container (k : container) : thunk :=
   match k with
@@ -978,6 +1037,7 @@ Definition thunk_of_container (k : container) : thunk :=
   | KRec fs => TVal (Ok (VRec (map (fun '(k, a) => (k, (thunk_of_atom a, []))) fs)))
   | KFun o => TVal (Ok (VFun (FBase o)))
   | KTree t => thunk_of_tree t
+  | KRecR ds => TVal (Ok (VRec (map (fun '(k, d) => (k, (thunk_of_fdef d, []))) ds)))
   end.
 
 Definition annotate (T : option ctr) (t : thunk) : thunk :=
